@@ -60,6 +60,18 @@ for _mk, _parser, _sel in [
     _b = [e.get('id') for e in soupsieve.select(_sel, _soup)]
     _c = _soup.select_one(_sel)
     _out.append([_a, _b, _c.get('id') if _c is not None else None])
+_NS = {'xlink': 'http://www.w3.org/1999/xlink', 'svg': 'http://www.w3.org/2000/svg', 'x': 'urn:x'}
+for _mk, _parser, _sel in [
+    ('<r xmlns:xlink="http://www.w3.org/1999/xlink" xmlns:x="urn:x"><a id="1" xlink:href="u"/><a id="2" href="u"/><x:b id="3" xml:lang="de"/></r>',
+     'xml', '[xlink|href], x|b:lang(de), [*|href]:not([|href])'),
+    ('<html><body><svg><a id="1" xlink:href="u"></a><circle id="2"></circle></svg><a id="3" href="u"></a></body></html>',
+     'html5lib', '[xlink|href], svg|circle, [*|href]'),
+]:
+    _soup = BeautifulSoup(_mk, _parser)
+    _a = [e.get('id') for e in _soup.select(_sel, namespaces=_NS)]
+    _b = [e.get('id') for e in soupsieve.select(_sel, _soup, namespaces=_NS)]
+    _c = _soup.select_one(_sel, namespaces=_NS)
+    _out.append([_a, _b, _c.get('id') if _c is not None else None])
 _cw.__exit__(None, None, None)
 _bad = [[str(x.category.__name__), str(x.message)[:80], x.filename] for x in _w if os.path.realpath(x.filename).startswith(_pkg)]
 sys.stdout.write(json.dumps({'results': _out, 'warnings': _bad}) + '\n')
